@@ -4,6 +4,7 @@ import (
 	"encoding/json"
 	"fmt"
 	"os"
+	"strings"
 	"time"
 
 	redisemu "github.com/jimsnab/go-redisemu"
@@ -141,4 +142,28 @@ func replayOps(ops []Op) {
 		}
 	})
 	fmt.Println("terminal:", s.Term, s.PanicVal)
+}
+
+func init() {
+	// mc explore1 <prop> <group> <tier> <bound> [name-substring]: explore scenarios one by one in
+	// this process, printing progress (debugging aid)
+	extraCommands["explore1"] = func(args []string) {
+		redisemu.VInit()
+		scs := exploreScenarios(args[0], args[1], args[2])
+		bound := 1
+		fmt.Sscanf(args[3], "%d", &bound)
+		for i, sc := range scs {
+			if len(args) > 4 && !strings.Contains(sc.Name, args[4]) {
+				continue
+			}
+			st := newStats()
+			t0 := time.Now()
+			fmt.Fprintf(os.Stderr, "[%d/%d] %s ... ", i, len(scs), sc.Name)
+			exploreFrom(sc, nil, bound, time.Now().Add(60*time.Second), st)
+			fmt.Fprintf(os.Stderr, "%d schedules, %d violations, %.2fs, terminals %v\n", st.Execs, len(st.Violations), time.Since(t0).Seconds(), st.Terminals)
+			for _, v := range st.Violations {
+				fmt.Fprintf(os.Stderr, "    %s: %s\n", v.Sig, v.Detail)
+			}
+		}
+	}
 }
